@@ -14,6 +14,9 @@ import Gotree.Lemmas.C02Chan
 import Gotree.Lemmas.C02onC01
 import Gotree.Lemmas.C02NewickEq
 import Gotree.Gen.C02Goroutine
+import Gotree.Gen.C02Dispatch
+import Gotree.Model.C02Dispatch
+import Gotree.Lemmas.C02Writers
 
 namespace Gotree.C02
 open Gotree
@@ -259,6 +262,150 @@ theorem single_reports_or_delivers (b : List UInt8) (ps : List Readers.Clade) (v
     split at h
     · cases h
     · split at h <;> (try cases h) <;> simp
+
+/-! ### the entry points with their `switch format` (Model/C02Dispatch.lean) -/
+
+/-- ★ the two entry points of io/utils/readtrees.go, for EVERY format code (the four constants and anything else:
+    the `default` branch) and every input: no panic, no hang -/
+theorem entry_points_total (inp : Readers.Input) (format : Int) :
+    (Readers.readTreeReader inp format).crashed = false ∧ (Readers.readMultiTrees inp format).crashed = false := by
+  constructor
+  · unfold Readers.readTreeReader
+    split
+    · exact newick_no_panic _
+    · split
+      · exact (nexus_no_panic _).1
+      · split
+        · split
+          · rfl
+          · exact (clades_no_panic _ "" default).1
+        · split
+          · split
+            · rfl
+            · exact (clades_no_panic [] _ _).2.2.1
+          · rfl
+  · unfold Readers.readMultiTrees
+    split
+    · exact multi_no_panic _
+    · split
+      · exact (nexus_no_panic _).2
+      · split
+        · split
+          · rfl
+          · exact (clades_no_panic _ "" default).2.1
+        · split
+          · split
+            · rfl
+            · exact (clades_no_panic [] _ _).2.2.2
+          · rfl
+
+/-- "either reports an error or delivers trees", at the entry points and for every format code: an `ok` outcome
+    always comes with at least one record (for a code that is none of the four constants: `ReadTreeReader` returns
+    an error, `ReadMultiTrees` sends exactly one record, which carries the error) -/
+theorem entry_points_report_or_deliver (inp : Readers.Input) (format : Int) :
+    (∀ rs, Readers.readTreeReader inp format = .ok rs → rs ≠ []) ∧
+    (∀ rs, Readers.readMultiTrees inp format = .ok rs → rs ≠ []) := by
+  constructor
+  · intro rs h
+    unfold Readers.readTreeReader at h
+    split at h
+    · exact (single_reports_or_delivers inp.bytes [] "" default).1 rs h
+    · split at h
+      · exact (single_reports_or_delivers inp.bytes [] "" default).2.1 rs h
+      · split at h
+        · split at h
+          · cases h
+          · rename_i ps _; exact (single_reports_or_delivers [] ps "" default).2.2.1 rs h
+        · split at h
+          · split at h
+            · cases h
+            · rename_i v n _; exact (single_reports_or_delivers [] [] v n).2.2.2 rs h
+          · cases h
+  · intro rs h
+    unfold Readers.readMultiTrees at h
+    split at h
+    · exact multi_reports_or_delivers _ rs h
+    · split at h
+      · exact nexus_multi_reports_or_delivers _ rs h
+      · split at h
+        · split at h
+          · cases h; simp
+          · exact phyloxml_multi_reports_or_delivers _ rs h
+        · split at h
+          · split at h
+            · cases h; simp
+            · exact nextstrain_multi_reports_or_delivers _ _ rs h
+          · cases h; simp
+
+/-- the `default` branches: a format code outside 0..3 is reported, by an error resp. by one error record -/
+theorem unsupported_format_reported (inp : Readers.Input) (format : Int) (h : format < 0 ∨ format > 3) :
+    (Readers.readTreeReader inp format).cls = "err" ∧
+    (match Readers.readMultiTrees inp format with | .ok [r] => r.tree.isNone && r.id == 0 | _ => false) = true := by
+  have h0 : (format == 0) = false := by simp; omega
+  have h1 : (format == 1) = false := by simp; omega
+  have h2 : (format == 2) = false := by simp; omega
+  have h3 : (format == 3) = false := by simp; omega
+  constructor
+  · simp [Readers.readTreeReader, h0, h1, h2, h3, Readers.ROut.cls]
+  · simp [Readers.readMultiTrees, h0, h1, h2, h3]
+
+/-- the command line never reaches those `default` branches: whatever word follows `--format`, PersistentPreRun
+    leaves one of the four constants in `treeformat`; and the driver's `formatOfFlag` names that constant -/
+theorem cmd_format_in_range (v : String) :
+    0 ≤ Readers.formatCode v ∧ Readers.formatCode v ≤ 3 ∧ Readers.formatName (Readers.formatCode v) = Readers.formatOfFlag v := by
+  unfold Readers.formatCode Readers.formatOfFlag
+  by_cases a : v = "newick"
+  · subst a; decide
+  · by_cases b : v = "nexus"
+    · subst b; decide
+    · by_cases c : v = "phyloxml"
+      · subst c; decide
+      · by_cases d : v = "nextstrain"
+        · subst d; decide
+        · simp [a, b, c, d, Readers.formatName]
+
+/-- the shape of the three switches, regenerated from the working tree on every run (harness/c02/extract2.go →
+    Gen/C02Dispatch.lean): the four constants in iota order, the case labels of `switch format` in ReadTreeReader and
+    in ReadMultiTrees with the parser package each case calls and a `default`, the words of `switch rootInputFormat`
+    in cmd/root.go with the constant each selects, the default of the `--format` flag -/
+theorem reader_dispatch_shape :
+    Gen.C02.formatConsts = Readers.formatConsts ∧ Gen.C02.singleSwitch = Readers.dispatchTable ∧
+    Gen.C02.multiSwitch = Readers.dispatchTable ∧ Gen.C02.cmdFormatSwitch = Readers.cmdFormatTable ∧
+    Gen.C02.cmdFormatFlagDefault = "newick" := by decide
+
+/-- … and `formatCode` is that table read with the constants numbered by `formatConsts` -/
+theorem formatCode_is_the_table :
+    Readers.cmdFormatTable.all (fun p =>
+      (if p.1 == "default" then Readers.formatCode "anything else" else Readers.formatCode p.1) ==
+        (Readers.formatConsts.idxOf p.2 : Int)) = true := by decide
+
+/-- the guards of the two index expressions of `ReadUntilSemiColon` in the working tree are the ones the model
+    transcribes (`len(ln) > 0`, `i > 0`; the pinned variant of F5 had `i >= 0`: `readUntilSemiColon_pinned_fails`) -/
+theorem readUntilSemiColon_guards : Gen.C02.rusIndexGuards = [">0"] ∧ Gen.C02.rusLenGuards = [">0"] := by decide
+
+/-- the hypothesis of `unsupported_format_reported` holds for the two codes the harness hands to the entry points
+    (formats `bad` = 7, `badm` = -1), and the default branches answer as stated on a concrete input -/
+example : ((7 : Int) < 0 ∨ (7 : Int) > 3) ∧ ((-1 : Int) < 0 ∨ (-1 : Int) > 3) := by decide
+example : (Readers.readTreeReader {} 7).cls = "err" := by decide
+example : (match Readers.readMultiTrees {} (-1) with | .ok [r] => r.tree.isNone | _ => false) = true := by decide
+example : Readers.formatCode "nexus" = 1 ∧ Readers.formatCode "NEXUS" = 0 ∧ Readers.formatCode "" = 0 := by decide
+
+/-! ### written back (Model/C02Writers.lean) -/
+
+/-- what `phyloxml.WritePhyloXML` writes for ANY tree value: its `<clade>` / `</clade>` lines are well nested, every
+    other line stands inside a clade, and there is exactly one clade per node of the tree -/
+theorem phyloxml_written_well_nested (t : T) :
+    Writers.wellNested (Writers.phylogenyLines t) 0 = true ∧ Writers.nOpen (Writers.phylogenyLines t) = nNodes t := by
+  constructor
+  · have h := Writers.wellNested_node 1 none t [] 0
+    simpa [Writers.phylogenyLines, Writers.wellNested] using h
+  · exact Writers.nOpen_node 1 none t
+
+/-- `Tree.Nexus()` declares as many taxa as it lists, and no more than the tree has nodes -/
+theorem nexus_written_ntax (t : T) : t.tipNames.length ≤ nNodes t := tipNames_le_nodes t
+
+example : Writers.nexusText (.node ⟨"", []⟩ 0 [(EdgeD.blank, T.leaf "a"), (EdgeD.blank, T.leaf "b")]) =
+    "#NEXUS\nBEGIN TAXA;\n DIMENSIONS NTAX=2;\n TAXLABELS a b;\nEND;\nBEGIN TREES;\n  TREE tree1 = (a,b);\nEND;\n" := by decide
 
 /-! ### the behaviours before the fixes (negative theorems on the pinned variants) -/
 
